@@ -9,8 +9,8 @@
 //        Precondition (stated in evidence): the text matches [0-9]+ -- what the lexer's integer token classes deliver after
 //        `lower` has stripped the suffix; goml has no negative literals (`-1` is a prefix operator applied to `1`).
 //        For the unsigned types additionally `-`digits: always rejected with one diagnostic.
-//        Oracle: Horner evaluation of the digits in a type wide enough to be exact (u64 for <= 19 digits, u128 above),
-//        independent of `str::parse`.
+//        Oracle: in range <=> the zero-padded digit string is lexicographically <= the digits of MAX; value = wrapping
+//        Horner sum in u64 (exact for every in-range literal); independent of `str::parse` and of the target type's arithmetic.
 // O10.5  `Typer::ensure_float_literal_fits` for a symbolic f64 bit pattern and target float32 / float64 / a non-float type:
 //             a diagnostic is pushed  <=>  the value is not finite, or the target is float32 and |value| > f32::MAX.
 //        Oracle on the IEEE-754 bit pattern (integer comparisons only), the code under test uses float comparisons.
@@ -46,47 +46,62 @@ fn ty_tag(ty: &tast::Ty) -> u8 {
     }
 }
 
-/// (variant tag, value) of an integer Prim; a negative value becomes a huge number and can never equal the oracle's
-fn tag_val(p: &Prim) -> (u8, u128) {
+/// (variant tag, value) of an integer Prim; a negative value becomes a number >= 2^63 and can never equal the oracle's
+fn tag_val(p: &Prim) -> (u8, u64) {
     match p {
-        Prim::Int8 { value } => (1, *value as i128 as u128),
-        Prim::Int16 { value } => (2, *value as i128 as u128),
-        Prim::Int32 { value } => (3, *value as i128 as u128),
-        Prim::Int64 { value } => (4, *value as i128 as u128),
-        Prim::UInt8 { value } => (5, *value as u128),
-        Prim::UInt16 { value } => (6, *value as u128),
-        Prim::UInt32 { value } => (7, *value as u128),
-        Prim::UInt64 { value } => (8, *value as u128),
+        Prim::Int8 { value } => (1, *value as i64 as u64),
+        Prim::Int16 { value } => (2, *value as i64 as u64),
+        Prim::Int32 { value } => (3, *value as i64 as u64),
+        Prim::Int64 { value } => (4, *value as u64),
+        Prim::UInt8 { value } => (5, *value as u64),
+        Prim::UInt16 { value } => (6, *value as u64),
+        Prim::UInt32 { value } => (7, *value as u64),
+        Prim::UInt64 { value } => (8, *value),
         _ => (0, 0),
     }
 }
 
-/// exact value of N <= 21 decimal digits: the last 19 digits fit u64 (10^19 - 1 < 2^64), the leading ones are scaled in u128
-fn horner<const N: usize>(d: &[u8; N]) -> u128 {
-    let split = if N > 19 { N - 19 } else { 0 };
-    let mut hi: u64 = 0;
-    let mut lo: u64 = 0;
+/// decimal order of two digit strings of equal length = lexicographic order:  -1 / 0 / 1
+fn cmp_digits(d: &[u8], m: &[u8]) -> i8 {
+    let mut r = 0i8;
     let mut i = 0usize;
-    while i < N {
-        let x = (d[i] - b'0') as u64;
-        if i < split {
-            hi = hi * 10 + x;
-        } else {
-            lo = lo * 10 + x;
+    while i < d.len() {
+        if r == 0 {
+            if d[i] < m[i] {
+                r = -1;
+            } else if d[i] > m[i] {
+                r = 1;
+            }
         }
         i += 1;
     }
-    (hi as u128) * 10_000_000_000_000_000_000u128 + lo as u128
+    r
+}
+
+/// value of the digits modulo 2^64 (exact whenever the literal is in range of a <= 64-bit type)
+fn horner_wrapping(d: &[u8]) -> u64 {
+    let mut v: u64 = 0;
+    let mut i = 0usize;
+    while i < d.len() {
+        v = v.wrapping_mul(10).wrapping_add((d[i] - b'0') as u64);
+        i += 1;
+    }
+    v
 }
 
 struct LitOut {
-    val: u128,
-    max: u128,
     some: bool,
+    in_range: bool,
+    is_max: bool,
+    is_max_plus_1: bool,
     first: u8,
+    val: u64,
 }
 
-fn run_lit<const N: usize>(ty: tast::Ty, max: u128) -> LitOut {
+/// `maxs` / `max1s`: the decimal digits of MAX(type) and MAX(type)+1 zero-padded to N digits, or empty when N digits
+/// cannot reach MAX (then every N-digit literal is in range).  The in-range test is a digit-string comparison, the value
+/// is a wrapping Horner sum: neither uses `str::parse` nor the arithmetic of the type under test.
+fn run_lit<const N: usize>(ty: tast::Ty, maxs: &[u8], max1s: &[u8]) -> LitOut {
     let mut typer = new_typer();
     let mut diags = Diagnostics::new();
     let mut bytes = [0u8; N];
@@ -97,7 +112,12 @@ fn run_lit<const N: usize>(ty: tast::Ty, max: u128) -> LitOut {
         bytes[i] = b;
         i += 1;
     }
-    let val = horner::<N>(&bytes);
+    assert!(maxs.len() == max1s.len() && (maxs.len() == 0 || maxs.len() == N));
+    let bounded = maxs.len() == N;
+    let in_range = !bounded || cmp_digits(&bytes, maxs) <= 0;
+    let is_max = bounded && cmp_digits(&bytes, maxs) == 0;
+    let is_max_plus_1 = bounded && cmp_digits(&bytes, max1s) == 0;
+    let val = horner_wrapping(&bytes);
     let s = unsafe { std::str::from_utf8_unchecked(&bytes) };
 
     let r = typer.parse_integer_literal_with_ty(&mut diags, s, &ty);
@@ -106,24 +126,24 @@ fn run_lit<const N: usize>(ty: tast::Ty, max: u128) -> LitOut {
         Some(p) => {
             let (t, v) = tag_val(p);
             assert!(t == ty_tag(&ty), "O10.1 accepted literal has the Prim variant of another type");
-            assert!(val <= max, "O10.1 out-of-range literal accepted");
+            assert!(in_range, "O10.1 out-of-range literal accepted");
             assert!(v == val, "O10.1 accepted literal does not denote the written value");
             assert!(diags.len() == 0, "O10.1 diagnostic pushed for an accepted literal");
         }
         None => {
-            assert!(val > max, "O10.1 in-range literal rejected");
+            assert!(!in_range, "O10.1 in-range literal rejected");
             assert!(diags.len() == 1, "O10.1 rejected literal without exactly one diagnostic");
             assert!(diags.has_errors(), "O10.1 rejection diagnostic is not an error");
         }
     }
-    let out = LitOut { val, max, some: r.is_some(), first: bytes[0] };
+    let out = LitOut { some: r.is_some(), in_range, is_max, is_max_plus_1, first: bytes[0], val };
     std::mem::forget((typer, diags, r));
     out
 }
 
 // ---- reachability witnesses, attached only where satisfiable (every cover of every harness must be SATISFIED)
 fn cov_accepted(o: &LitOut) {
-    kani::cover!(o.some, "accepted literal");
+    kani::cover!(o.some && o.in_range, "accepted literal");
 }
 fn cov_leading_zero(o: &LitOut) {
     kani::cover!(o.some && o.first == b'0' && o.val > 0, "accepted literal with a leading zero");
@@ -132,18 +152,18 @@ fn cov_rejected(o: &LitOut) {
     kani::cover!(!o.some, "rejected literal");
 }
 fn cov_boundary(o: &LitOut) {
-    kani::cover!(o.some && o.val == o.max, "accepted: exactly the maximum of the type");
-    kani::cover!(!o.some && o.val == o.max + 1, "rejected: maximum + 1");
+    kani::cover!(o.some && o.is_max, "accepted: exactly the maximum of the type");
+    kani::cover!(!o.some && o.is_max_plus_1, "rejected: maximum + 1");
 }
 
 macro_rules! lit {
-    ($name:ident, $n:literal, $ty:ident, $max:literal, $unwind:literal, [$($cov:ident),*]) => {
+    ($name:ident, $n:literal, $ty:ident, $maxs:literal, $max1s:literal, $unwind:literal, [$($cov:ident),*]) => {
         #[kani::proof]
         #[kani::unwind($unwind)]
         #[kani::stub(std::hash::RandomState::new, fixed_rs)]
         #[kani::stub(alloc::fmt::format, stub_format)]
         fn $name() {
-            let o = run_lit::<$n>(tast::Ty::$ty, $max);
+            let o = run_lit::<$n>(tast::Ty::$ty, $maxs, $max1s);
             $( $cov(&o); )*
         }
     };
@@ -184,97 +204,97 @@ macro_rules! neg {
     };
 }
 
-// lit!(name, digits, type, MAX, unwind = digits + 2, [witness groups])
-lit!(lit_i8_d01, 1, TInt8, 127, 3, [cov_accepted]);
-lit!(lit_i8_d02, 2, TInt8, 127, 4, [cov_accepted, cov_leading_zero]);
-lit!(lit_i8_d03, 3, TInt8, 127, 5, [cov_accepted, cov_leading_zero, cov_rejected, cov_boundary]);
-lit!(lit_i8_d04, 4, TInt8, 127, 6, [cov_accepted, cov_leading_zero, cov_rejected, cov_boundary]);
+// lit!(name, digits, type, MAX and MAX+1 zero-padded to that many digits (empty: N digits cannot reach MAX), unwind = digits + 2, [witness groups])
+lit!(lit_i8_d01, 1, TInt8, b"", b"", 3, [cov_accepted]);
+lit!(lit_i8_d02, 2, TInt8, b"", b"", 4, [cov_accepted, cov_leading_zero]);
+lit!(lit_i8_d03, 3, TInt8, b"127", b"128", 5, [cov_accepted, cov_leading_zero, cov_rejected, cov_boundary]);
+lit!(lit_i8_d04, 4, TInt8, b"0127", b"0128", 6, [cov_accepted, cov_leading_zero, cov_rejected, cov_boundary]);
 
-lit!(lit_i16_d01, 1, TInt16, 32767, 3, [cov_accepted]);
-lit!(lit_i16_d02, 2, TInt16, 32767, 4, [cov_accepted, cov_leading_zero]);
-lit!(lit_i16_d03, 3, TInt16, 32767, 5, [cov_accepted, cov_leading_zero]);
-lit!(lit_i16_d04, 4, TInt16, 32767, 6, [cov_accepted, cov_leading_zero]);
-lit!(lit_i16_d05, 5, TInt16, 32767, 7, [cov_accepted, cov_leading_zero, cov_rejected, cov_boundary]);
-lit!(lit_i16_d06, 6, TInt16, 32767, 8, [cov_accepted, cov_leading_zero, cov_rejected, cov_boundary]);
+lit!(lit_i16_d01, 1, TInt16, b"", b"", 3, [cov_accepted]);
+lit!(lit_i16_d02, 2, TInt16, b"", b"", 4, [cov_accepted, cov_leading_zero]);
+lit!(lit_i16_d03, 3, TInt16, b"", b"", 5, [cov_accepted, cov_leading_zero]);
+lit!(lit_i16_d04, 4, TInt16, b"", b"", 6, [cov_accepted, cov_leading_zero]);
+lit!(lit_i16_d05, 5, TInt16, b"32767", b"32768", 7, [cov_accepted, cov_leading_zero, cov_rejected, cov_boundary]);
+lit!(lit_i16_d06, 6, TInt16, b"032767", b"032768", 8, [cov_accepted, cov_leading_zero, cov_rejected, cov_boundary]);
 
-lit!(lit_i32_d01, 1, TInt32, 2147483647, 3, [cov_accepted]);
-lit!(lit_i32_d02, 2, TInt32, 2147483647, 4, [cov_accepted, cov_leading_zero]);
-lit!(lit_i32_d03, 3, TInt32, 2147483647, 5, [cov_accepted, cov_leading_zero]);
-lit!(lit_i32_d04, 4, TInt32, 2147483647, 6, [cov_accepted, cov_leading_zero]);
-lit!(lit_i32_d05, 5, TInt32, 2147483647, 7, [cov_accepted, cov_leading_zero]);
-lit!(lit_i32_d06, 6, TInt32, 2147483647, 8, [cov_accepted, cov_leading_zero]);
-lit!(lit_i32_d07, 7, TInt32, 2147483647, 9, [cov_accepted, cov_leading_zero]);
-lit!(lit_i32_d08, 8, TInt32, 2147483647, 10, [cov_accepted, cov_leading_zero]);
-lit!(lit_i32_d09, 9, TInt32, 2147483647, 11, [cov_accepted, cov_leading_zero]);
-lit!(lit_i32_d10, 10, TInt32, 2147483647, 12, [cov_accepted, cov_leading_zero, cov_rejected, cov_boundary]);
-lit!(lit_i32_d11, 11, TInt32, 2147483647, 13, [cov_accepted, cov_leading_zero, cov_rejected, cov_boundary]);
+lit!(lit_i32_d01, 1, TInt32, b"", b"", 3, [cov_accepted]);
+lit!(lit_i32_d02, 2, TInt32, b"", b"", 4, [cov_accepted, cov_leading_zero]);
+lit!(lit_i32_d03, 3, TInt32, b"", b"", 5, [cov_accepted, cov_leading_zero]);
+lit!(lit_i32_d04, 4, TInt32, b"", b"", 6, [cov_accepted, cov_leading_zero]);
+lit!(lit_i32_d05, 5, TInt32, b"", b"", 7, [cov_accepted, cov_leading_zero]);
+lit!(lit_i32_d06, 6, TInt32, b"", b"", 8, [cov_accepted, cov_leading_zero]);
+lit!(lit_i32_d07, 7, TInt32, b"", b"", 9, [cov_accepted, cov_leading_zero]);
+lit!(lit_i32_d08, 8, TInt32, b"", b"", 10, [cov_accepted, cov_leading_zero]);
+lit!(lit_i32_d09, 9, TInt32, b"", b"", 11, [cov_accepted, cov_leading_zero]);
+lit!(lit_i32_d10, 10, TInt32, b"2147483647", b"2147483648", 12, [cov_accepted, cov_leading_zero, cov_rejected, cov_boundary]);
+lit!(lit_i32_d11, 11, TInt32, b"02147483647", b"02147483648", 13, [cov_accepted, cov_leading_zero, cov_rejected, cov_boundary]);
 
-lit!(lit_i64_d01, 1, TInt64, 9223372036854775807, 3, [cov_accepted]);
-lit!(lit_i64_d02, 2, TInt64, 9223372036854775807, 4, [cov_accepted, cov_leading_zero]);
-lit!(lit_i64_d03, 3, TInt64, 9223372036854775807, 5, [cov_accepted, cov_leading_zero]);
-lit!(lit_i64_d04, 4, TInt64, 9223372036854775807, 6, [cov_accepted, cov_leading_zero]);
-lit!(lit_i64_d05, 5, TInt64, 9223372036854775807, 7, [cov_accepted, cov_leading_zero]);
-lit!(lit_i64_d06, 6, TInt64, 9223372036854775807, 8, [cov_accepted, cov_leading_zero]);
-lit!(lit_i64_d07, 7, TInt64, 9223372036854775807, 9, [cov_accepted, cov_leading_zero]);
-lit!(lit_i64_d08, 8, TInt64, 9223372036854775807, 10, [cov_accepted, cov_leading_zero]);
-lit!(lit_i64_d09, 9, TInt64, 9223372036854775807, 11, [cov_accepted, cov_leading_zero]);
-lit!(lit_i64_d10, 10, TInt64, 9223372036854775807, 12, [cov_accepted, cov_leading_zero]);
-lit!(lit_i64_d11, 11, TInt64, 9223372036854775807, 13, [cov_accepted, cov_leading_zero]);
-lit!(lit_i64_d12, 12, TInt64, 9223372036854775807, 14, [cov_accepted, cov_leading_zero]);
-lit!(lit_i64_d13, 13, TInt64, 9223372036854775807, 15, [cov_accepted, cov_leading_zero]);
-lit!(lit_i64_d14, 14, TInt64, 9223372036854775807, 16, [cov_accepted, cov_leading_zero]);
-lit!(lit_i64_d15, 15, TInt64, 9223372036854775807, 17, [cov_accepted, cov_leading_zero]);
-lit!(lit_i64_d16, 16, TInt64, 9223372036854775807, 18, [cov_accepted, cov_leading_zero]);
-lit!(lit_i64_d17, 17, TInt64, 9223372036854775807, 19, [cov_accepted, cov_leading_zero]);
-lit!(lit_i64_d18, 18, TInt64, 9223372036854775807, 20, [cov_accepted, cov_leading_zero]);
-lit!(lit_i64_d19, 19, TInt64, 9223372036854775807, 21, [cov_accepted, cov_leading_zero, cov_rejected, cov_boundary]);
-lit!(lit_i64_d20, 20, TInt64, 9223372036854775807, 22, [cov_accepted, cov_leading_zero, cov_rejected, cov_boundary]);
+lit!(lit_i64_d01, 1, TInt64, b"", b"", 3, [cov_accepted]);
+lit!(lit_i64_d02, 2, TInt64, b"", b"", 4, [cov_accepted, cov_leading_zero]);
+lit!(lit_i64_d03, 3, TInt64, b"", b"", 5, [cov_accepted, cov_leading_zero]);
+lit!(lit_i64_d04, 4, TInt64, b"", b"", 6, [cov_accepted, cov_leading_zero]);
+lit!(lit_i64_d05, 5, TInt64, b"", b"", 7, [cov_accepted, cov_leading_zero]);
+lit!(lit_i64_d06, 6, TInt64, b"", b"", 8, [cov_accepted, cov_leading_zero]);
+lit!(lit_i64_d07, 7, TInt64, b"", b"", 9, [cov_accepted, cov_leading_zero]);
+lit!(lit_i64_d08, 8, TInt64, b"", b"", 10, [cov_accepted, cov_leading_zero]);
+lit!(lit_i64_d09, 9, TInt64, b"", b"", 11, [cov_accepted, cov_leading_zero]);
+lit!(lit_i64_d10, 10, TInt64, b"", b"", 12, [cov_accepted, cov_leading_zero]);
+lit!(lit_i64_d11, 11, TInt64, b"", b"", 13, [cov_accepted, cov_leading_zero]);
+lit!(lit_i64_d12, 12, TInt64, b"", b"", 14, [cov_accepted, cov_leading_zero]);
+lit!(lit_i64_d13, 13, TInt64, b"", b"", 15, [cov_accepted, cov_leading_zero]);
+lit!(lit_i64_d14, 14, TInt64, b"", b"", 16, [cov_accepted, cov_leading_zero]);
+lit!(lit_i64_d15, 15, TInt64, b"", b"", 17, [cov_accepted, cov_leading_zero]);
+lit!(lit_i64_d16, 16, TInt64, b"", b"", 18, [cov_accepted, cov_leading_zero]);
+lit!(lit_i64_d17, 17, TInt64, b"", b"", 19, [cov_accepted, cov_leading_zero]);
+lit!(lit_i64_d18, 18, TInt64, b"", b"", 20, [cov_accepted, cov_leading_zero]);
+lit!(lit_i64_d19, 19, TInt64, b"9223372036854775807", b"9223372036854775808", 21, [cov_accepted, cov_leading_zero, cov_rejected, cov_boundary]);
+lit!(lit_i64_d20, 20, TInt64, b"09223372036854775807", b"09223372036854775808", 22, [cov_accepted, cov_leading_zero, cov_rejected, cov_boundary]);
 
-lit!(lit_u8_d01, 1, TUint8, 255, 3, [cov_accepted]);
-lit!(lit_u8_d02, 2, TUint8, 255, 4, [cov_accepted, cov_leading_zero]);
-lit!(lit_u8_d03, 3, TUint8, 255, 5, [cov_accepted, cov_leading_zero, cov_rejected, cov_boundary]);
-lit!(lit_u8_d04, 4, TUint8, 255, 6, [cov_accepted, cov_leading_zero, cov_rejected, cov_boundary]);
+lit!(lit_u8_d01, 1, TUint8, b"", b"", 3, [cov_accepted]);
+lit!(lit_u8_d02, 2, TUint8, b"", b"", 4, [cov_accepted, cov_leading_zero]);
+lit!(lit_u8_d03, 3, TUint8, b"255", b"256", 5, [cov_accepted, cov_leading_zero, cov_rejected, cov_boundary]);
+lit!(lit_u8_d04, 4, TUint8, b"0255", b"0256", 6, [cov_accepted, cov_leading_zero, cov_rejected, cov_boundary]);
 
-lit!(lit_u16_d01, 1, TUint16, 65535, 3, [cov_accepted]);
-lit!(lit_u16_d02, 2, TUint16, 65535, 4, [cov_accepted, cov_leading_zero]);
-lit!(lit_u16_d03, 3, TUint16, 65535, 5, [cov_accepted, cov_leading_zero]);
-lit!(lit_u16_d04, 4, TUint16, 65535, 6, [cov_accepted, cov_leading_zero]);
-lit!(lit_u16_d05, 5, TUint16, 65535, 7, [cov_accepted, cov_leading_zero, cov_rejected, cov_boundary]);
-lit!(lit_u16_d06, 6, TUint16, 65535, 8, [cov_accepted, cov_leading_zero, cov_rejected, cov_boundary]);
+lit!(lit_u16_d01, 1, TUint16, b"", b"", 3, [cov_accepted]);
+lit!(lit_u16_d02, 2, TUint16, b"", b"", 4, [cov_accepted, cov_leading_zero]);
+lit!(lit_u16_d03, 3, TUint16, b"", b"", 5, [cov_accepted, cov_leading_zero]);
+lit!(lit_u16_d04, 4, TUint16, b"", b"", 6, [cov_accepted, cov_leading_zero]);
+lit!(lit_u16_d05, 5, TUint16, b"65535", b"65536", 7, [cov_accepted, cov_leading_zero, cov_rejected, cov_boundary]);
+lit!(lit_u16_d06, 6, TUint16, b"065535", b"065536", 8, [cov_accepted, cov_leading_zero, cov_rejected, cov_boundary]);
 
-lit!(lit_u32_d01, 1, TUint32, 4294967295, 3, [cov_accepted]);
-lit!(lit_u32_d02, 2, TUint32, 4294967295, 4, [cov_accepted, cov_leading_zero]);
-lit!(lit_u32_d03, 3, TUint32, 4294967295, 5, [cov_accepted, cov_leading_zero]);
-lit!(lit_u32_d04, 4, TUint32, 4294967295, 6, [cov_accepted, cov_leading_zero]);
-lit!(lit_u32_d05, 5, TUint32, 4294967295, 7, [cov_accepted, cov_leading_zero]);
-lit!(lit_u32_d06, 6, TUint32, 4294967295, 8, [cov_accepted, cov_leading_zero]);
-lit!(lit_u32_d07, 7, TUint32, 4294967295, 9, [cov_accepted, cov_leading_zero]);
-lit!(lit_u32_d08, 8, TUint32, 4294967295, 10, [cov_accepted, cov_leading_zero]);
-lit!(lit_u32_d09, 9, TUint32, 4294967295, 11, [cov_accepted, cov_leading_zero]);
-lit!(lit_u32_d10, 10, TUint32, 4294967295, 12, [cov_accepted, cov_leading_zero, cov_rejected, cov_boundary]);
-lit!(lit_u32_d11, 11, TUint32, 4294967295, 13, [cov_accepted, cov_leading_zero, cov_rejected, cov_boundary]);
+lit!(lit_u32_d01, 1, TUint32, b"", b"", 3, [cov_accepted]);
+lit!(lit_u32_d02, 2, TUint32, b"", b"", 4, [cov_accepted, cov_leading_zero]);
+lit!(lit_u32_d03, 3, TUint32, b"", b"", 5, [cov_accepted, cov_leading_zero]);
+lit!(lit_u32_d04, 4, TUint32, b"", b"", 6, [cov_accepted, cov_leading_zero]);
+lit!(lit_u32_d05, 5, TUint32, b"", b"", 7, [cov_accepted, cov_leading_zero]);
+lit!(lit_u32_d06, 6, TUint32, b"", b"", 8, [cov_accepted, cov_leading_zero]);
+lit!(lit_u32_d07, 7, TUint32, b"", b"", 9, [cov_accepted, cov_leading_zero]);
+lit!(lit_u32_d08, 8, TUint32, b"", b"", 10, [cov_accepted, cov_leading_zero]);
+lit!(lit_u32_d09, 9, TUint32, b"", b"", 11, [cov_accepted, cov_leading_zero]);
+lit!(lit_u32_d10, 10, TUint32, b"4294967295", b"4294967296", 12, [cov_accepted, cov_leading_zero, cov_rejected, cov_boundary]);
+lit!(lit_u32_d11, 11, TUint32, b"04294967295", b"04294967296", 13, [cov_accepted, cov_leading_zero, cov_rejected, cov_boundary]);
 
-lit!(lit_u64_d01, 1, TUint64, 18446744073709551615, 3, [cov_accepted]);
-lit!(lit_u64_d02, 2, TUint64, 18446744073709551615, 4, [cov_accepted, cov_leading_zero]);
-lit!(lit_u64_d03, 3, TUint64, 18446744073709551615, 5, [cov_accepted, cov_leading_zero]);
-lit!(lit_u64_d04, 4, TUint64, 18446744073709551615, 6, [cov_accepted, cov_leading_zero]);
-lit!(lit_u64_d05, 5, TUint64, 18446744073709551615, 7, [cov_accepted, cov_leading_zero]);
-lit!(lit_u64_d06, 6, TUint64, 18446744073709551615, 8, [cov_accepted, cov_leading_zero]);
-lit!(lit_u64_d07, 7, TUint64, 18446744073709551615, 9, [cov_accepted, cov_leading_zero]);
-lit!(lit_u64_d08, 8, TUint64, 18446744073709551615, 10, [cov_accepted, cov_leading_zero]);
-lit!(lit_u64_d09, 9, TUint64, 18446744073709551615, 11, [cov_accepted, cov_leading_zero]);
-lit!(lit_u64_d10, 10, TUint64, 18446744073709551615, 12, [cov_accepted, cov_leading_zero]);
-lit!(lit_u64_d11, 11, TUint64, 18446744073709551615, 13, [cov_accepted, cov_leading_zero]);
-lit!(lit_u64_d12, 12, TUint64, 18446744073709551615, 14, [cov_accepted, cov_leading_zero]);
-lit!(lit_u64_d13, 13, TUint64, 18446744073709551615, 15, [cov_accepted, cov_leading_zero]);
-lit!(lit_u64_d14, 14, TUint64, 18446744073709551615, 16, [cov_accepted, cov_leading_zero]);
-lit!(lit_u64_d15, 15, TUint64, 18446744073709551615, 17, [cov_accepted, cov_leading_zero]);
-lit!(lit_u64_d16, 16, TUint64, 18446744073709551615, 18, [cov_accepted, cov_leading_zero]);
-lit!(lit_u64_d17, 17, TUint64, 18446744073709551615, 19, [cov_accepted, cov_leading_zero]);
-lit!(lit_u64_d18, 18, TUint64, 18446744073709551615, 20, [cov_accepted, cov_leading_zero]);
-lit!(lit_u64_d19, 19, TUint64, 18446744073709551615, 21, [cov_accepted, cov_leading_zero]);
-lit!(lit_u64_d20, 20, TUint64, 18446744073709551615, 22, [cov_accepted, cov_leading_zero, cov_rejected, cov_boundary]);
-lit!(lit_u64_d21, 21, TUint64, 18446744073709551615, 23, [cov_accepted, cov_leading_zero, cov_rejected, cov_boundary]);
+lit!(lit_u64_d01, 1, TUint64, b"", b"", 3, [cov_accepted]);
+lit!(lit_u64_d02, 2, TUint64, b"", b"", 4, [cov_accepted, cov_leading_zero]);
+lit!(lit_u64_d03, 3, TUint64, b"", b"", 5, [cov_accepted, cov_leading_zero]);
+lit!(lit_u64_d04, 4, TUint64, b"", b"", 6, [cov_accepted, cov_leading_zero]);
+lit!(lit_u64_d05, 5, TUint64, b"", b"", 7, [cov_accepted, cov_leading_zero]);
+lit!(lit_u64_d06, 6, TUint64, b"", b"", 8, [cov_accepted, cov_leading_zero]);
+lit!(lit_u64_d07, 7, TUint64, b"", b"", 9, [cov_accepted, cov_leading_zero]);
+lit!(lit_u64_d08, 8, TUint64, b"", b"", 10, [cov_accepted, cov_leading_zero]);
+lit!(lit_u64_d09, 9, TUint64, b"", b"", 11, [cov_accepted, cov_leading_zero]);
+lit!(lit_u64_d10, 10, TUint64, b"", b"", 12, [cov_accepted, cov_leading_zero]);
+lit!(lit_u64_d11, 11, TUint64, b"", b"", 13, [cov_accepted, cov_leading_zero]);
+lit!(lit_u64_d12, 12, TUint64, b"", b"", 14, [cov_accepted, cov_leading_zero]);
+lit!(lit_u64_d13, 13, TUint64, b"", b"", 15, [cov_accepted, cov_leading_zero]);
+lit!(lit_u64_d14, 14, TUint64, b"", b"", 16, [cov_accepted, cov_leading_zero]);
+lit!(lit_u64_d15, 15, TUint64, b"", b"", 17, [cov_accepted, cov_leading_zero]);
+lit!(lit_u64_d16, 16, TUint64, b"", b"", 18, [cov_accepted, cov_leading_zero]);
+lit!(lit_u64_d17, 17, TUint64, b"", b"", 19, [cov_accepted, cov_leading_zero]);
+lit!(lit_u64_d18, 18, TUint64, b"", b"", 20, [cov_accepted, cov_leading_zero]);
+lit!(lit_u64_d19, 19, TUint64, b"", b"", 21, [cov_accepted, cov_leading_zero]);
+lit!(lit_u64_d20, 20, TUint64, b"18446744073709551615", b"18446744073709551616", 22, [cov_accepted, cov_leading_zero, cov_rejected, cov_boundary]);
+lit!(lit_u64_d21, 21, TUint64, b"018446744073709551615", b"018446744073709551616", 23, [cov_accepted, cov_leading_zero, cov_rejected, cov_boundary]);
 
 // neg!(name, digits, type, unwind)
 neg!(neg_u8_d01, 1, TUint8, 4);
